@@ -247,6 +247,24 @@ class Session:
             from jaqalpaq.run import run_jaqal_string
 
             return lambda: run_jaqal_string(txt, import_path=self.scratch)
+        if via == "run_file":
+            from jaqalpaq.run import run_jaqal_file
+
+            path = os.path.join(self.scratch, "run%d.jaqal" % ti)
+            with open(path, "w", encoding="utf8", newline="") as f:
+                f.write(txt)
+            return lambda: run_jaqal_file(path)
+        if via == "header":
+            from jaqalpaq.parser.parser import parse_jaqal_string_header
+
+            return lambda: parse_jaqal_string_header(txt, return_usepulses=True)
+        if via == "header_file":
+            from jaqalpaq.parser.parser import parse_jaqal_file_header
+
+            path = os.path.join(self.scratch, "hdr%d.jaqal" % ti)
+            with open(path, "w", encoding="utf8", newline="") as f:
+                f.write(txt)
+            return lambda: parse_jaqal_file_header(path)
         return lambda: parse_jaqal_string(txt, **kw)
 
     def pass_callable(self, name, override, c):
@@ -785,14 +803,14 @@ def plan_c16(run_seed):
                 kw["override"] = e["ov"]
         if t.chance(p_bad) and "raw" not in e:
             # a corrupted variant of text ti becomes a new text entry
-            ops.append({"op": "corrupt", "text": ti, "seed": t.randrange(1 << 30), "kw": kw, "via": t.weighted([("string", 5), ("file", 2), ("sexpr", 1)])})
+            ops.append({"op": "corrupt", "text": ti, "seed": t.randrange(1 << 30), "kw": kw, "via": t.weighted([("string", 5), ("file", 2), ("sexpr", 1), ("header", 0.5), ("run", 1.0 if not e.get("anon") else 0.2), ("run_file", 0.7 if e.get("pulses") else 0)])})
             ncorrupt += 1
             continue
-        via = t.weighted([("string", 5), ("file", 1.5), ("sexpr", 1), ("run_string", 2 if e.get("pulses") else 0), ("run", 3 if not e.get("anon") else 0.5)])
+        via = t.weighted([("string", 5), ("file", 1.5), ("sexpr", 1), ("header", 0.6), ("header_file", 0.3), ("run_string", 2 if e.get("pulses") else 0), ("run_file", 1 if e.get("pulses") else 0), ("run", 3 if not e.get("anon") else 0.5)])
         op = {"op": "parse", "text": ti, "kw": kw if via in ("string", "file", "run") else {}, "via": via}
         if t.chance(p_interrupt):
             op["interrupt"] = t.random()
-        if via in ("run", "run_string") and e.get("exec") and t.chance(p_nested):
+        if via in ("run", "run_string", "run_file") and e.get("exec") and t.chance(p_nested):
             other = t.randrange(len(texts))
             op["nested"] = {"at": t.randrange(5), "op": {"op": "parse", "text": other, "kw": {}, "via": "string", "bad_seed": t.randrange(1 << 30) if t.chance(0.6) else None}}
         if e.get("pulses") and t.chance(p_nested):
@@ -828,7 +846,7 @@ def check_type(S, j, op, o, text, allowed_extra=()):
     k = o["kind"]
     if k == "ok" or k == "JaqalError":
         return
-    if op.get("via") == "file":
+    if op.get("via") in ("file", "run_file", "header_file"):
         # Python's text layer hands the library universal newlines
         text = text.replace("\r\n", "\n").replace("\r", "\n")
     if k in ("nonterm", "exc:MemoryError") and big_literal(text):
@@ -875,7 +893,7 @@ def c16_callable(S, op, j):
                 seams.install_sampler(old)
 
         return job
-    if via == "run_string":
+    if via in ("run_string", "run_file"):
         base = S.parse_callable(op)
         seed = H(S.plan["run_seed"], "sampler", j)
 
@@ -1002,13 +1020,13 @@ def exec_c16(plan, role="main", order=None):
             except BaseException as e:
                 raise
             fn = c16_callable(S, op, j)
-            budget = budget_parse(text) + (5_000_000 if op.get("via") in ("run", "run_string") else 0)
+            budget = budget_parse(text) + (5_000_000 if op.get("via") in ("run", "run_string", "run_file") else 0)
             allowed = allowed_for(S, op)
             if op.get("fault"):
                 S.fault("text:" + op["fault"]["kind"])
             if role == "main" and op.get("interrupt") is not None:
                 # estimate of the call's line events (measured: 40-100 per character)
-                k = 1 + int(op["interrupt"] * (100 if op.get("via") in ("run", "run_string") else 60) * max(len(text), 8))
+                k = 1 + int(op["interrupt"] * (100 if op.get("via") in ("run", "run_string", "run_file") else 60) * max(len(text), 8))
                 oi = seams.outcome_of(fn, S.clock, budget, inject_at=k)
                 if oi["kind"] == "interrupt":
                     S.fault("interrupt")
